@@ -80,6 +80,23 @@ func compHdr(o *out, seed uint64, tier string) {
 		o.emit("hdrm", fmt.Sprintf("in=%s", hx(in)), fmt.Sprintf("vfh=%d%s", b2i(ok), errClass(err)), true)
 		o.count("non-magic")
 	}
+	// every prefix of a valid header (with and without a size field), of a non-magic word followed by
+	// junk, of the legacy magic, of a skippable frame followed by a header: a non-magic first word is
+	// (false, nil) however short the input is; an input that ends inside a header is an error
+	for _, full := range [][]byte{
+		{0x04, 0x22, 0x4d, 0x18, 0x64, 0x40, 0xa7, 0, 0, 0, 0},
+		append([]byte{0x04, 0x22, 0x4d, 0x18, 0x6c, 0x40, 5, 0, 0, 0, 0, 0, 0, 0}, byte(xxh32.ChecksumZero([]byte{0x6c, 0x40, 5, 0, 0, 0, 0, 0, 0, 0})>>8)),
+		{0x05, 0x22, 0x4d, 0x18, 0x64, 0x40, 0xa7, 1, 2, 3},
+		{0x02, 0x21, 0x4c, 0x18, 9, 0, 0, 0, 1, 2},
+		{0x50, 0x2a, 0x4d, 0x18, 2, 0, 0, 0, 7, 7, 0x04, 0x22, 0x4d, 0x18, 0x64, 0x40, 0xa7},
+	} {
+		for k := 0; k <= len(full); k++ {
+			in := full[:k]
+			ok, err := lz4.ValidFrameHeader(in)
+			o.emit("hdrm", fmt.Sprintf("in=%s", hx(in)), fmt.Sprintf("vfh=%d%s", b2i(ok), errClass(err)), true)
+			o.count("every-prefix-of-a-header")
+		}
+	}
 	// every first word around the reserved skippable range, followed by a 3-byte payload and a valid
 	// header: exactly the sixteen magics 0x184D2A50..5F are skipped, every other word is not a frame
 	for m := uint32(0x184D2A40); m <= 0x184D2A6F; m++ {
